@@ -30,8 +30,19 @@ pub enum Pres {
     MapWidened,
     /// `visit_seq`, widened integer
     SeqWidened,
+    /// `visit_map`, key delivered with `visit_borrowed_str` (zero-copy formats reading from a `&str`)
+    MapBorrowedKey,
+    /// `visit_map`, key delivered with `visit_string` (formats reading from a stream, buffered `Content`)
+    MapOwnedKey,
+    /// `visit_seq` whose access object announces its length (`size_hint() == Some(1)`)
+    SeqHinted,
 }
-pub const PRESENTATIONS: [Pres; 4] = [Pres::Seq, Pres::Map, Pres::MapWidened, Pres::SeqWidened];
+pub const PRESENTATIONS: [Pres; 7] = [Pres::Seq, Pres::Map, Pres::MapWidened, Pres::SeqWidened, Pres::MapBorrowedKey, Pres::MapOwnedKey, Pres::SeqHinted];
+impl Pres {
+    pub fn is_seq(self) -> bool {
+        matches!(self, Pres::Seq | Pres::SeqWidened | Pres::SeqHinted)
+    }
+}
 
 #[derive(Clone, Copy, Debug, PartialEq, Eq, PartialOrd, Ord, Hash)]
 pub enum SerdeFault {
@@ -51,7 +62,15 @@ pub struct SerdeOps {
     /// (bits, wrapping, format claims to be human readable)
     pub ser: fn(u128, bool, bool) -> Result<Vec<Tok>, String>,
     /// drive the real Deserialize impl from a simulated token stream
-    pub de: fn(u128, bool, Pres, SerdeFault, bool) -> (Result<u128, String>, Option<(String, Vec<String>)>),
+    /// (bits, wrapping, presentation, stream fault, human readable, through `deserialize_in_place` into a
+    /// slot that holds another value)
+    pub de: fn(u128, bool, Pres, SerdeFault, bool, bool) -> (Result<u128, String>, Option<(String, Vec<String>)>),
+    /// a document with several values (`Doc`): JSON text by the library's types and by the integer twin
+    pub doc_json: fn(&[u128; 4], bool) -> (Result<String, String>, Result<String, String>),
+    /// parse a `Doc` JSON text with the library's types and with the integer twin
+    pub doc_unjson: fn(&str, bool) -> (Result<Vec<u128>, String>, Result<Vec<u128>, String>),
+    pub doc_cbor: fn(&[u128; 4], bool) -> (Result<Vec<u8>, String>, Result<Vec<u8>, String>),
+    pub doc_uncbor: fn(&[u8], bool) -> (Result<Vec<u128>, String>, Result<Vec<u128>, String>),
     pub json: fn(u128, bool) -> Result<String, String>,
     pub json_twin: fn(u128) -> Result<String, String>,
     pub unjson: fn(&str, bool) -> Result<u128, String>,
@@ -77,7 +96,11 @@ pub fn serde_ops<T: crate::lay::Lay>() -> SerdeOps {
     }
     SerdeOps {
         ser: |_, _, _| off(),
-        de: |_, _, _, _, _| (off(), None),
+        de: |_, _, _, _, _, _| (off(), None),
+        doc_json: |_, _| (off(), off()),
+        doc_unjson: |_, _| (off(), off()),
+        doc_cbor: |_, _| (off(), off()),
+        doc_uncbor: |_, _| (off(), off()),
         json: |_, _| off(),
         json_twin: |_| off(),
         unjson: |_, _| off(),
@@ -94,7 +117,7 @@ pub fn serde_ops<T: crate::lay::Lay>() -> SerdeOps {
 mod real {
 use super::*;
 use crate::lay::{Elem, LaySerde as Lay};
-use serde::de::{self, DeserializeSeed, Deserializer, IntoDeserializer, MapAccess, SeqAccess, Visitor};
+use serde::de::{self, DeserializeSeed, Deserializer, MapAccess, SeqAccess, Visitor};
 use serde::ser::{self, Impossible, Serialize, SerializeStruct, Serializer};
 use std::fmt;
 
@@ -291,7 +314,34 @@ impl<'de, 'a> SeqAccess<'de> for OneSeq<'a> {
         }
     }
     fn size_hint(&self) -> Option<usize> {
-        None
+        if self.0.pres == Pres::SeqHinted && !self.1 {
+            Some(1)
+        } else if self.0.pres == Pres::SeqHinted {
+            Some(0)
+        } else {
+            None
+        }
+    }
+}
+
+/// The field identifier, handed to the visitor the way the presentation says.
+struct KeyDe(Pres);
+impl<'de> Deserializer<'de> for KeyDe {
+    type Error = TokErr;
+    fn deserialize_any<V: Visitor<'de>>(self, v: V) -> Result<V::Value, TokErr> {
+        match self.0 {
+            Pres::MapBorrowedKey => v.visit_borrowed_str("bits"),
+            Pres::MapOwnedKey => v.visit_string(String::from("bits")),
+            _ => {
+                // a transient string (scratch buffer of the format)
+                let scratch = String::from("bits");
+                v.visit_str(&scratch)
+            }
+        }
+    }
+    serde::forward_to_deserialize_any! {
+        bool i8 i16 i32 i64 i128 u8 u16 u32 u64 u128 f32 f64 char str string bytes byte_buf option unit
+        unit_struct newtype_struct seq tuple tuple_struct map struct enum identifier ignored_any
     }
 }
 
@@ -306,7 +356,7 @@ impl<'de, 'a> MapAccess<'de> for OneMap<'a> {
         match self.0.fault {
             SerdeFault::EndsEarly => Ok(None),
             SerdeFault::AccessError => Err(TokErr("sim: transport error".into())),
-            _ => seed.deserialize(IntoDeserializer::<TokErr>::into_deserializer("bits")).map(Some),
+            _ => seed.deserialize(KeyDe(self.0.pres)).map(Some),
         }
     }
     fn next_value_seed<S: DeserializeSeed<'de>>(&mut self, seed: S) -> Result<S::Value, TokErr> {
@@ -328,8 +378,8 @@ impl<'de, 'a> Deserializer<'de> for &'a mut TokDe {
     fn deserialize_struct<V: Visitor<'de>>(self, name: &'static str, fields: &'static [&'static str], v: V) -> Result<V::Value, TokErr> {
         self.asked = Some((name.to_string(), fields.iter().map(|s| s.to_string()).collect()));
         match self.pres {
-            Pres::Seq | Pres::SeqWidened => v.visit_seq(OneSeq(self, false)),
-            Pres::Map | Pres::MapWidened => v.visit_map(OneMap(self, 0)),
+            p if p.is_seq() => v.visit_seq(OneSeq(self, false)),
+            _ => v.visit_map(OneMap(self, 0)),
         }
     }
     serde::forward_to_deserialize_any! {
@@ -340,7 +390,7 @@ impl<'de, 'a> Deserializer<'de> for &'a mut TokDe {
 
 // ------------------------------------------------------------------ real formats, differential twin
 
-#[derive(serde::Serialize, serde::Deserialize)]
+#[derive(serde::Serialize, serde::Deserialize, Clone, Copy)]
 struct Twin<I> {
     bits: I,
 }
@@ -356,6 +406,76 @@ impl<'de, T: Lay> serde::Deserialize<'de> for W<T> {
     fn deserialize<D: Deserializer<'de>>(d: D) -> Result<Self, D::Error> {
         T::w_deserialize(d).map(W)
     }
+    fn deserialize_in_place<D: Deserializer<'de>>(d: D, place: &mut Self) -> Result<(), D::Error> {
+        T::w_deserialize_in_place(d, &mut place.0)
+    }
+}
+
+/// A document with several values, the way application structs hold them: a list, an optional, a
+/// value behind an untagged enum (which serde reads through its buffered `Content`: owned keys, integers
+/// as u64/i64 only), a plain field after them (so that a value that takes too much or too little of the
+/// stream shows), and a foreign field.
+#[derive(serde::Serialize, serde::Deserialize)]
+struct Doc<X> {
+    items: Vec<X>,
+    opt: Option<X>,
+    any: Untagged<X>,
+    last: X,
+    tag: u8,
+}
+#[derive(serde::Serialize, serde::Deserialize)]
+#[serde(untagged)]
+enum Untagged<X> {
+    One(X),
+}
+fn doc_of<X: Copy>(v: [X; 4], tag: u8) -> Doc<X> {
+    let [a, b, c, d] = v;
+    Doc { items: vec![a, b], opt: Some(c), any: Untagged::One(d), last: a, tag }
+}
+fn doc_vals<X>(d: Doc<X>, tb: impl Fn(X) -> u128) -> Vec<u128> {
+    let mut v: Vec<u128> = Vec::new();
+    let tag = d.tag;
+    v.extend(d.items.into_iter().map(&tb));
+    v.push(u128::MAX);
+    v.extend(d.opt.into_iter().map(&tb));
+    v.push(u128::MAX);
+    let Untagged::One(x) = d.any;
+    v.push(tb(x));
+    v.push(tb(d.last));
+    v.push(tag as u128);
+    v
+}
+const DOC_TAG: u8 = 0xa7;
+impl<T: Lay> Clone for W<T> {
+    fn clone(&self) -> Self {
+        W(self.0)
+    }
+}
+impl<T: Lay> Copy for W<T> {}
+
+fn doc_json<T: Lay>(v: &[u128; 4], wrapping: bool) -> (Result<String, String>, Result<String, String>) {
+    let e = |e: serde_json::Error| e.to_string();
+    let lib = if wrapping { serde_json::to_string(&doc_of(v.map(|b| W(T::fb(b))), DOC_TAG)).map_err(e) } else { serde_json::to_string(&doc_of(v.map(T::fb), DOC_TAG)).map_err(e) };
+    let twin = serde_json::to_string(&doc_of(v.map(|b| Twin { bits: <T::SInt as Elem>::fb(b) }), DOC_TAG)).map_err(e);
+    (lib, twin)
+}
+fn doc_unjson<T: Lay>(s: &str, wrapping: bool) -> (Result<Vec<u128>, String>, Result<Vec<u128>, String>) {
+    let e = |e: serde_json::Error| e.to_string();
+    let lib = if wrapping { serde_json::from_str::<Doc<W<T>>>(s).map(|d| doc_vals(d, |x| x.0.tb())).map_err(e) } else { serde_json::from_str::<Doc<T>>(s).map(|d| doc_vals(d, |x| x.tb())).map_err(e) };
+    let twin = serde_json::from_str::<Doc<Twin<T::SInt>>>(s).map(|d| doc_vals(d, |x| x.bits.tb())).map_err(e);
+    (lib, twin)
+}
+fn doc_cbor<T: Lay>(v: &[u128; 4], wrapping: bool) -> (Result<Vec<u8>, String>, Result<Vec<u8>, String>) {
+    let e = |e: serde_cbor::Error| e.to_string();
+    let lib = if wrapping { serde_cbor::to_vec(&doc_of(v.map(|b| W(T::fb(b))), DOC_TAG)).map_err(e) } else { serde_cbor::to_vec(&doc_of(v.map(T::fb), DOC_TAG)).map_err(e) };
+    let twin = serde_cbor::to_vec(&doc_of(v.map(|b| Twin { bits: <T::SInt as Elem>::fb(b) }), DOC_TAG)).map_err(e);
+    (lib, twin)
+}
+fn doc_uncbor<T: Lay>(b: &[u8], wrapping: bool) -> (Result<Vec<u128>, String>, Result<Vec<u128>, String>) {
+    let e = |e: serde_cbor::Error| e.to_string();
+    let lib = if wrapping { serde_cbor::from_slice::<Doc<W<T>>>(b).map(|d| doc_vals(d, |x| x.0.tb())).map_err(e) } else { serde_cbor::from_slice::<Doc<T>>(b).map(|d| doc_vals(d, |x| x.tb())).map_err(e) };
+    let twin = serde_cbor::from_slice::<Doc<Twin<T::SInt>>>(b).map(|d| doc_vals(d, |x| x.bits.tb())).map_err(e);
+    (lib, twin)
 }
 
 // ------------------------------------------------------------------ per-layout entry points
@@ -367,8 +487,20 @@ fn ser<T: Lay>(bits: u128, wrapping: bool, hr: bool) -> Result<Vec<Tok>, String>
     let r = if wrapping { v.w_serialize(TokSer(&mut toks, hr)) } else { v.serialize(TokSer(&mut toks, hr)) };
     r.map(|_| toks).map_err(|e| e.0)
 }
-fn de<T: Lay>(bits: u128, wrapping: bool, pres: Pres, fault: SerdeFault, hr: bool) -> (Result<u128, String>, Option<(String, Vec<String>)>) {
+fn de<T: Lay>(bits: u128, wrapping: bool, pres: Pres, fault: SerdeFault, hr: bool, in_place: bool) -> (Result<u128, String>, Option<(String, Vec<String>)>) {
     let mut d = TokDe { pres, fault, width: T::W, signed: T::SIGNED, bits, asked: None, hr };
+    if in_place {
+        // the slot already holds a value (what `Vec<T>::deserialize_in_place` does with reused elements)
+        let junk = !bits & if T::W == 128 { u128::MAX } else { (1u128 << T::W) - 1 };
+        let r = if wrapping {
+            let mut place = W(T::fb(junk));
+            <W<T> as serde::Deserialize>::deserialize_in_place(&mut d, &mut place).map(|_| place.0.tb())
+        } else {
+            let mut place = T::fb(junk);
+            <T as serde::Deserialize>::deserialize_in_place(&mut d, &mut place).map(|_| place.tb())
+        };
+        return (r.map_err(|e| e.0), d.asked);
+    }
     let r = if wrapping {
         T::w_deserialize(&mut d).map(|v| v.tb())
     } else {
@@ -425,6 +557,10 @@ pub fn serde_ops<T: Lay>() -> SerdeOps {
     SerdeOps {
         ser: ser::<T>,
         de: de::<T>,
+        doc_json: doc_json::<T>,
+        doc_unjson: doc_unjson::<T>,
+        doc_cbor: doc_cbor::<T>,
+        doc_uncbor: doc_uncbor::<T>,
         json: json::<T>,
         json_twin: json_twin::<T>,
         unjson: unjson::<T>,
